@@ -396,6 +396,14 @@ func runLayout(inp *input, scratch string) core.Result {
 			res.GoViolations = append(res.GoViolations, fmt.Sprintf("harness assumption: go/parser attached a comment to a node at %s:%d:%d that the layout did not print as a declaration", fileName(at[0]), at[1], at[2]))
 		}
 	}
+	contNames := map[[3]int]int{} // printed names that are not on the first line of their declaration -> that line
+	for fi, p := range printers {
+		for _, n := range p.names {
+			if d := p.decls[n.Decl]; d.Line != n.Line {
+				contNames[[3]int{fi, n.Line, n.Col}] = d.Line
+			}
+		}
+	}
 	qset := map[[3]int]bool{}
 	for _, q := range queries {
 		ps := pkg.Position(q.pos)
@@ -436,11 +444,18 @@ func runLayout(inp *input, scratch string) core.Result {
 			res.GoViolations = append(res.GoViolations, fmt.Sprint("Doc/Comment panicked: ", v1, v2))
 			continue
 		}
-		if ci, ok := leadEnd[[2]int{fi, ps.Line - 1}]; ok {
+		// the expectation is that of the line of the declaration the name belongs to (for a name on a
+		// continuation line that is not the line of the name: known finding name_on_continuation_line)
+		declLine := ps.Line
+		if dl, ok := contNames[[3]int{fi, ps.Line, ps.Column}]; ok {
+			declLine = dl
+			stats["name_on_continuation_line"] = true
+		}
+		if ci, ok := leadEnd[[2]int{fi, declLine - 1}]; ok {
 			on.ExpDoc = textOf(fi, allCmts(fi)[ci])
 			stats["doc"] = true
 		}
-		if ci, ok := lineTrail[[2]int{fi, ps.Line}]; ok {
+		if ci, ok := lineTrail[[2]int{fi, declLine}]; ok {
 			on.ExpCmt = textOf(fi, allCmts(fi)[ci])
 			stats["trailing"] = true
 		}
@@ -462,9 +477,11 @@ func runLayout(inp *input, scratch string) core.Result {
 	for _, g := range leads {
 		leadTerms = append(leadTerms, g.coq())
 	}
-	res.Coq = fmt.Sprintf("CLayout %s %s %s", coqItems(events), coqItems(leadTerms), coqItems(qterms))
+	res.Coq = fmt.Sprintf("CLayout %s %s %s %s", coqItems(events), coqItems(leadTerms), core.CoqBool(len(contNames) > 0), coqItems(qterms))
 	res.Nontrivial = stats["doc"] && stats["trailing"]
-	switch { // input classes (labels for reports; none of them is a known finding once the fixes are in)
+	switch { // input classes (labels for reports; only the first is a known finding once the fixes are in)
+	case len(contNames) > 0:
+		res.Class = "name_on_continuation_line"
 	case stats["empty_comment_text"]:
 		res.Class = "empty_comment_text"
 	case stats["prev_line_trailing_no_doc"]:
